@@ -23,7 +23,8 @@ class Trial:
         self.cfg = cfg
         self.r = random.Random(cfg["seed"])
         self.instr = instr
-        self.plan = apirig.FaultPlan(())
+        # a few emitter construction / start failures: a schedule() that raises must register nothing
+        self.plan = apirig.FaultPlan(cfg.get("fail_at", ()))
         self.registry: list = []
         self.obs = BaseObserver(apirig.make_scripted_emitter(self.plan, self.registry), timeout=0.02)
         self.nw, self.nh = cfg["n_watch"], cfg["n_handlers"]
@@ -155,7 +156,12 @@ class Trial:
             for k in range(self.nw):
                 if self.r.random() < 0.7:
                     self.api("schedule", h, k)
-        self.obs.start()
+        for _ in range(8):
+            try:
+                self.obs.start()
+                break
+            except apirig.InjectedFailure:
+                continue  # the failing emitter has been dropped; retry as the suite does
         hold = None
         threads = [threading.Thread(target=self.feeder, args=(cfg["n_events"],), name="wdv-feeder", daemon=True)]
         for i in range(cfg["n_api_threads"]):
